@@ -2,6 +2,7 @@
 import itertools
 
 WARM_TWINS = {"quick": 0.02, "thorough": 0.05}      # engine: call-history twins (harness/warm.py)
+DECOY_TWINS = {"quick": 0.02, "thorough": 0.05}     # engine: decoy twins (harness/decoy.py)
 ID = "C06"
 LEAN_MODULE = "BioCantor.Props.C06"
 DESIGN_REF = "4/C06"
